@@ -140,3 +140,106 @@ def _enclosing_name(tree: ast.AST, node: ast.AST) -> str:
             if any(sub is node for sub in ast.walk(f)):
                 best = f.name
     return best
+
+
+# ---------------------------------------------------------------------------
+# lock discipline of the full caches (C05-6 / C13-4)
+
+BFC = "caches/base_full_cache.py"
+SHARED_FIELDS = {"_hashes_to_indices", "_max_index", "_last_accessed_index"}
+STORAGE_CALLS = {"_read_data", "_write_data", "_has_group", "_initialize_entry"}
+
+
+def lock_discipline(ctx: Ctx, rule: str) -> None:
+    """Every method touching the shared cache state is ``@synchronized`` or only reachable from such methods."""
+    from gv.astutil import decorator_names
+
+    base = ctx.index.cls(BFC, "BaseFullCache")
+    classes = [base, *ctx.index.subclasses(base)]
+    methods: dict[tuple[str, str], tuple] = {}
+    for c in classes:
+        for n, f in c.methods.items():
+            methods[(c.key, n)] = (c, f)
+
+    def unm(c, n):
+        pre = "_" + c.name.lstrip("_") + "__"
+        return n[len(pre) - 2 :] if n.startswith(pre) else n
+
+    def touches(c, f) -> list[ast.AST]:
+        out = []
+        # a bare emptiness test of the index (``if not self._hashes_to_indices``) is one atomic proxy call
+        benign = set()
+        for n in walk_body(f):
+            if isinstance(n, ast.UnaryOp) and isinstance(n.op, ast.Not):
+                benign.add(id(n.operand))
+            elif isinstance(n, (ast.If, ast.While)):
+                benign.add(id(n.test))
+            elif isinstance(n, ast.Call) and dotted(n.func) in ("len", "bool") and n.args:
+                benign.add(id(n.args[0]))
+        for n in walk_body(f):
+            if isinstance(n, ast.Attribute) and isinstance(n.value, ast.Name) and n.value.id == "self":
+                if n.attr in SHARED_FIELDS and id(n) not in benign:
+                    out.append(n)
+            if isinstance(n, ast.Call) and isinstance(n.func, ast.Attribute) and isinstance(n.func.value, ast.Name) and n.func.value.id == "self" and n.func.attr in STORAGE_CALLS:
+                out.append(n)
+        return out
+
+    def locked(f) -> bool:
+        d = decorator_names(f)
+        return "synchronized" in d or "synchronized_hashes" in d
+
+    # callers map (within the hierarchy)
+    callers: dict[tuple[str, str], list[tuple[str, str]]] = {}
+    for key, (c, f) in methods.items():
+        for n in walk_body(f):
+            if isinstance(n, ast.Call) and isinstance(n.func, ast.Attribute) and isinstance(n.func.value, ast.Name) and n.func.value.id == "self":
+                name = unm(c, n.func.attr)
+                for k2, (c2, f2) in methods.items():
+                    if k2[1] == name and (ctx.index.is_subclass(c, c2) or ctx.index.is_subclass(c2, c)):
+                        if name.startswith("__") and not name.endswith("__") and c2 != c:
+                            continue
+                        callers.setdefault(k2, []).append(key)
+            elif isinstance(n, ast.Attribute) and isinstance(n.value, ast.Name) and n.value.id == "self":
+                # property access
+                for k2, (c2, f2) in methods.items():
+                    if k2[1] == n.attr and n.attr in c2.properties and (ctx.index.is_subclass(c, c2) or ctx.index.is_subclass(c2, c)):
+                        callers.setdefault(k2, []).append(key)
+
+    memo: dict = {}
+
+    def protected(key, stack=()) -> bool:
+        if key in memo:
+            return memo[key]
+        c, f = methods[key]
+        if locked(f):
+            memo[key] = True
+            return True
+        if key in stack:
+            return True
+        if key[1] in ("__init__", "__setstate__", "__getstate__"):
+            memo[key] = True  # construction: the object is not shared yet
+            return True
+        cs = callers.get(key, [])
+        public = not key[1].startswith("_") or (key[1].startswith("__") and key[1].endswith("__"))
+        res = bool(cs) and not public and all(protected(k, (*stack, key)) for k in cs)
+        memo[key] = res
+        return res
+
+    n = 0
+    for key in sorted(methods):
+        c, f = methods[key]
+        if any(isinstance(s, ast.Expr) and isinstance(s.value, ast.Constant) and s.value.value is Ellipsis for s in f.body) and len(f.body) <= 2:
+            continue  # overload stub / abstract declaration
+        t = touches(c, f)
+        if not t:
+            continue
+        # storage primitives themselves are protected through their callers
+        n += 1
+        ctx.ob(rule, cname(c.module.relpath, c.qualname, key[1]), protected(key), f"{c.name}.{key[1]} touches the shared cache state ({norm_stmt(t[0], 50)}) but is neither @synchronized nor reachable only from @synchronized methods: concurrent workers can corrupt the index or read a half-written entry", node=f, stmt=f"lock held in {key[1]}")
+    ctx.floor(rule, 10)
+    # the decorators take the object's own lock
+    for name, attr in (("synchronized", "lock"), ("synchronized_hashes", "lock_hashes")):
+        g = ctx.index.func("utils/locks.py", name)
+        withs = [s for s in ast.walk(g) if isinstance(s, ast.With)]
+        ok = len(withs) == 1 and norm_stmt(withs[0].items[0].context_expr) == f"args[0].{attr}" and any(isinstance(r, ast.Return) and isinstance(r.value, ast.Call) and dotted(r.value.func) == "wrapped" for r in ast.walk(withs[0]))
+        ctx.ob(rule + "-decorator", cname("utils/locks.py", None, name), ok, f"@{name} must run the wrapped method inside `with args[0].{attr}`", node=g)
